@@ -219,8 +219,9 @@ def pages(tier):
         for size in (1, 2, 3):
             out += g.exprs(size, False, callees)
     if tier != "quick":
-        g2 = Grammar(["x"], ["1"], [None, "k"], control=True)
-        out += g2.exprs(4, False, ["s", "u", "w", "v"])
+        # size-4 pages: control flow and one-argument calls over all four library templates (no sequences)
+        g2 = Grammar(["x"], ["1"], [None, "k"], control=True, maxargs=1)
+        out += g2.exprs(4, False, ["s", "u", "w", "v"], seq=False)
     else:
         g2 = Grammar(["x"], [], [None], control=True, maxargs=1)
         out += g2.exprs(4, False, ["s", "u"], seq=False)
